@@ -16,7 +16,7 @@ ANCHORED = ["_calculate_tradeoff_points", "_filter_points_to_get_convex_hull", "
 RULE = ("exh: every multiset of (group in 2, label, score level in 3) rows with both labels in both groups, sizes 4..5 (quick) / "
         "4..6 (thorough), each crossed with a rotating schedule over 7 constraints x admissible objectives x flip x grid_size in "
         "{1,2,3,5,7,10,100,1000}; rand: 2..5 groups, n<=40, score families {few integer levels (ties), k/L rationals on grid points, "
-        "gaussians, huge magnitudes, gaps of 1e-9, probabilities, constant score inside one group}, inputs in hostile containers; "
+        "gaussians, huge magnitudes, gaps of 1e-9, probabilities, constant score inside one group, multi-scale near-tie ladders}, inputs in hostile containers; "
         "adjacent (thorough): scores that are adjacent floats. Oracle: expected SR/TPR/FPR/FNR/TNR per group recomputed from "
         "_pmf_predict on the training rows must coincide across groups (both FPR and TPR for equalized odds) within 1e-9; "
         "probabilities in [0,1]. distinct = distinct (constraint, objective, flip, grid, n, per-group (size, #score levels)); "
